@@ -351,6 +351,7 @@ type finding struct {
 	sig       string
 	explained bool // matches one of the three named mechanisms exactly
 	msg       string
+	nums      []int64 // the offending numbers (model indices), where the finding is about numbers
 }
 
 func u16s(v []int64, max int) string {
@@ -457,7 +458,7 @@ func (m *model) evalTick(t int64, pkts [][]uint16) (fs []finding, E, G []int64) 
 		}
 		for _, s := range []string{sigReqAhead, sigReqSkip, sigReqFirst, sigReqWindow, sigReqReceived} {
 			if v := by[s]; len(v) > 0 {
-				fs = append(fs, finding{sig: s, msg: "requested although excluded by the statement: " + u16s(v, 20)})
+				fs = append(fs, finding{sig: s, msg: "requested although excluded by the statement: " + u16s(v, 20), nums: v})
 			}
 		}
 	}
@@ -706,19 +707,21 @@ type stream struct {
 	bigJumps  int64 // newer packets with step >= size
 	unexpErr  int64
 	// bookkeeping inside the history
-	everBound   bool
-	unboundAt   int64           // ticks decided when UnbindRemoteStream was called (only if !bound && everBound)
-	boundMid    bool            // bound after the history had started
-	afterUnbind bool            // … and after some stream had been unbound in this case
-	sameTick    bool            // … with no tick between that unbind and this bind
-	servedOnce  bool            // a number of this stream's expected set has been requested since the bind
-	prev16      map[uint16]bool // same SSRC, previous binding: what was missing there at unbind time
-	prevFirst   uint16
-	ticksSince  int64 // stream-ticks decided since the bind
-	maxStep     int64 // >0: arrivals that any receiver takes for a forward step larger than this are not fed
-	suppressed  int64
-	wraps       int64
-	fed         int64
+	everBound        bool
+	unboundAt        int64           // ticks decided when UnbindRemoteStream was called (only if !bound && everBound)
+	boundMid         bool            // bound after the history had started
+	afterUnbind      bool            // … and after some stream had been unbound in this case
+	sameTick         bool            // … with no tick between that unbind and this bind
+	servedOnce       bool            // a number of this stream's expected set has been requested since the bind
+	prev16           map[uint16]bool // same SSRC, previous binding: what was missing there at unbind time
+	prevFirst        uint16
+	ticksSince       int64  // stream-ticks decided since the bind
+	unservedTicks    int64  // ticks with a non-empty expected set before the binding was first served
+	heldSig, heldMsg string // a not-requested finding of the first such tick
+	maxStep          int64  // >0: arrivals that any receiver takes for a forward step larger than this are not fed
+	suppressed       int64
+	wraps            int64
+	fed              int64
 }
 
 type engine struct {
@@ -1062,6 +1065,20 @@ func (e *engine) checkStream(st *stream, t int64) {
 	if m.matched > 0 {
 		st.servedOnce = true
 	}
+	// A stream bound after the history had started that has not had a single number of its
+	// expected set requested since the bind: after the second such tick this is reported as a
+	// binding that is not served (instead of tick-by-tick as numbers that were not requested).
+	unserved := st.boundMid && !st.servedOnce && len(r.E) > 0
+	if unserved {
+		st.unservedTicks++
+	}
+	violate := func(sig, msg string) {
+		if st.reported[sig] {
+			return
+		}
+		st.reported[sig] = true
+		e.c.Violation(sig, "%s", msg)
+	}
 	for _, f := range r.fs {
 		if st.boundMid {
 			f = e.bookkeepingClass(st, f)
@@ -1069,49 +1086,66 @@ func (e *engine) checkStream(st *stream, t int64) {
 		if st.reported[f.sig] {
 			continue
 		}
-		st.reported[f.sig] = true
-		e.c.Violation(f.sig, "%s\nstream %d of %d, SSRC %#x, tick #%d (virtual T0+%v): %s\nexpected (missing, after first, within window, <= highest-skipLastN): %d numbers %s\nrequested: %d numbers in %d packet(s) %s\nmodel: first=%d highest=%d window=(%d,%d] (16-bit values; %d packets fed to this stream)\n%s",
+		msg := fmt.Sprintf("%s\nstream %d of %d, SSRC %#x, tick #%d (virtual T0+%v): %s\nexpected (missing, after first, within window, <= highest-skipLastN): %d numbers %s\nrequested: %d numbers in %d packet(s) %s\nmodel: first=%d highest=%d window=(%d,%d] (16-bit values; %d packets fed to this stream)\n%s",
 			e.g, st.idx+1, len(e.streams), st.ssrc, t, time.Duration(t)*e.g.interval, f.msg,
 			len(r.E), u16s(r.E, 24), len(r.G), len(st.tickPkts), u16s(r.G, 24),
 			uint16(m.first), uint16(m.highest), uint16(m.highest-m.size), uint16(m.highest), st.fed, st.history())
+		if unserved && (f.sig == sigOmitted || f.sig == sigFirstTime) {
+			if st.unservedTicks == 1 {
+				st.heldSig, st.heldMsg = f.sig, msg+"\n(reported when the stream was first served, or at the end of the history)"
+			}
+			continue
+		}
+		violate(f.sig, msg)
+	}
+	if unserved && st.unservedTicks == 2 {
+		sig := sigLateBoundNoSrv
+		if st.afterUnbind {
+			sig = sigReboundNotSrv
+		}
+		st.heldSig = ""
+		violate(sig, fmt.Sprintf("%s\nstream %d of %d, SSRC %#x, tick #%d (virtual T0+%v): no number this stream is missing has been requested at any of the %d tick(s) since it was bound, at 2 of them its expected set was not empty\nexpected now: %d numbers %s\nrequested for the SSRC at this tick: %d numbers in %d packet(s) %s\nmodel: first=%d highest=%d (16-bit values; %d packets fed to this stream)\n%s\n%s",
+			e.g, st.idx+1, len(e.streams), st.ssrc, t, time.Duration(t)*e.g.interval, st.ticksSince,
+			len(r.E), u16s(r.E, 24), len(r.G), len(st.tickPkts), u16s(r.G, 24), uint16(m.first), uint16(m.highest), st.fed, e.bookkeeping(), st.history()))
+	}
+	if st.servedOnce && st.heldSig != "" {
+		violate(st.heldSig, st.heldMsg)
+		st.heldSig = ""
 	}
 }
 
-// bookkeepingClass names findings on a stream that was bound after the history had started
-// by what went wrong with the binding. It only renames (never drops) a finding.
+// bookkeepingClass names a finding about numbers that were requested although excluded on a
+// re-bound SSRC: if every one of them was missing on the previous binding of the SSRC when it
+// was unbound, the state of that binding has survived. It only renames a finding.
 func (e *engine) bookkeepingClass(st *stream, f finding) finding {
 	switch f.sig {
-	case sigOmitted, sigFirstTime:
-		if !st.servedOnce {
-			// not one number of this stream's expected set has been requested since the bind
-			f.sig = sigLateBoundNoSrv
-			if st.afterUnbind {
-				f.sig = sigReboundNotSrv
-			}
-			f.msg += fmt.Sprintf(" – no number this stream is missing has been requested in the %d tick(s) since it was bound\n%s", st.ticksSince, e.bookkeeping())
-		}
 	case sigReqNoPacket, sigReqFirst, sigReqWindow, sigReqReceived, sigReqAhead, sigReqSkip:
-		if st.prev16 == nil {
-			break
+	default:
+		return f
+	}
+	if st.prev16 == nil {
+		return f
+	}
+	var nums []uint16
+	if f.nums != nil {
+		for _, x := range f.nums {
+			nums = append(nums, uint16(x))
 		}
-		stale, n := 0, 0
-		var ex []uint16
+	} else {
 		for _, p := range st.tickPkts {
-			for _, x := range p {
-				n++
-				if st.prev16[x] {
-					stale++
-					if len(ex) < 12 {
-						ex = append(ex, x)
-					}
-				}
-			}
-		}
-		if stale > 0 {
-			f.sig = sigStateSurvives
-			f.msg += fmt.Sprintf(" – %d of the %d requested numbers were missing on the previous binding of this SSRC (first packet there %d) when it was unbound, e.g. %v; after the re-bind the stream starts afresh\n%s", stale, n, st.prevFirst, ex, e.bookkeeping())
+			nums = append(nums, p...)
 		}
 	}
+	for _, x := range nums {
+		if !st.prev16[x] {
+			return f
+		}
+	}
+	if len(nums) == 0 {
+		return f
+	}
+	f.sig = sigStateSurvives
+	f.msg += fmt.Sprintf(" – every one of these %d numbers was missing on the previous binding of this SSRC (first packet there %d) when it was unbound; after the re-bind the stream starts afresh\n%s", len(nums), st.prevFirst, e.bookkeeping())
 	return f
 }
 
@@ -1154,6 +1188,10 @@ func (e *engine) finish(kind string) {
 		if !st.nack {
 			c.Add("arrivals_on_stream_without_nack_feedback", st.fed)
 			continue
+		}
+		if st.heldSig != "" && !st.reported[st.heldSig] {
+			st.reported[st.heldSig] = true
+			c.Violation(st.heldSig, "%s", st.heldMsg)
 		}
 		fills += st.ev[evFill]
 		late += st.ev[evOlderThanWindow] + st.ev[evOneWindowBehind]
